@@ -32,7 +32,9 @@ LEVEL_TEXT = (
     "answer lost/late/twice/retransmitted/for another property, instance, object type or service, indication interleaved, error answer, "
     "server disconnect, TCP reset) of length <= 3 (quick) / <= 4 (thorough) is run against 4 sequential property calls (the third repeats the "
     "key of the first); closes (user disconnect, server DisconnectRequest, TCP reset) are injected at every distinct wire instant of the baseline "
-    "and between them for scripts of length <= 1 / <= 2; 2-4 concurrent callers for scripts <= 1 / <= 2; counter wrap-around 254->1. "
+    "and between them for scripts of length <= 1 / <= 2; 2-4 concurrent callers for scripts <= 1 / <= 2; counter wrap-around 254->1; configuration dimension: indication callback "
+    "registered / not registered (the class default) / raising, UDP route-back, for scripts <= 2 / <= 3 with unsolicited indications for the "
+    "property being read. "
     "Bounded exhaustive enumeration of fault sequences, hence fault_enumeration."
 )
 LEVEL_NOTE = (
@@ -86,8 +88,12 @@ def run_case(ctx, case, judge=True):
     close_rec = {}
     extra_ind = case.get("indications", ())  # times at which the server sends unsolicited indications
 
+    cb_mode = case.get("callback", "record")  # "record" | "none" (the default of the class) | "raises"
+
     def ind_cb(frame):
         indications.append((round(loop.time() - 1000.0, 6), frame))
+        if cb_mode == "raises":
+            raise RuntimeError("indication callback of the application fails")
 
     async def one_call(conn, idx):
         kind, obj, inst, pid, start = CALLS[idx % len(CALLS)]
@@ -130,10 +136,11 @@ def run_case(ctx, case, judge=True):
         close_rec["done"] = round(loop.time() - 1000.0, 6)
 
     async def main():
+        kwargs = {} if cb_mode == "none" else {"indication_callback": ind_cb}
         if tcp:
-            conn = TCPDeviceManagementConnection("10.0.0.2", 3671, indication_callback=ind_cb)
+            conn = TCPDeviceManagementConnection("10.0.0.2", 3671, **kwargs)
         else:
-            conn = UDPDeviceManagementConnection("10.0.0.2", 3671, local_ip="10.0.0.1", indication_callback=ind_cb)
+            conn = UDPDeviceManagementConnection("10.0.0.2", 3671, local_ip="10.0.0.1", route_back=bool(case.get("route_back")), **kwargs)
         await conn.connect()
         if first_counter:
             conn.sequence_number = first_counter  # public attribute: start near the wrap-around
@@ -283,7 +290,11 @@ def _judge(ctx, obs):
     sent_raw = [d["raw"] for d in ind_sent]
     # subsequence with multiplicity one
     it = iter(sent_raw)
-    if not all(any(g == s for s in it) for g in got):
+    if case.get("callback") == "none":
+        ctx.count("cases_without_indication_callback")
+        if sent_raw:
+            ctx.count("indications_delivered_without_callback", len(sent_raw))
+    elif not all(any(g == s for s in it) for g in got):
         ctx.violation(f"{tag}-indication-callback-sequence-not-what-the-server-sent", _witness(obs, got=[g.hex() for g in got]),
                       "indication_callback saw indications the server did not deliver in that order / more than once")
     elif close_t is None and not any(r.get("symbol") in ("X", "C") for r in srv.requests) and srv.closed_at is None and len(got) != len(sent_raw):
@@ -291,6 +302,10 @@ def _judge(ctx, obs):
                       f"{len(sent_raw)} in-sequence indications delivered on the open connection, callback saw {len(got)}")
     if sent_raw:
         ctx.count("indications_delivered_by_server", len(sent_raw))
+    if case.get("callback") == "raises" and got:
+        ctx.count("indication_callback_raised", len(got))
+    if case.get("route_back"):
+        ctx.count("route_back_cases")
 
     # ---- wire analysis of client requests --------------------------------------
     per_call_tx = {}
@@ -414,7 +429,7 @@ def _judge(ctx, obs):
     if obs["loop_exceptions"]:
         ctx.count("loop_exception_handler_calls", len(obs["loop_exceptions"]))
     hist = "".join(srv.symbols_used)
-    ctx.distinct((tag, hist, tuple(c.get("outcome") for c in calls), case.get("concurrent", 0),
+    ctx.distinct((tag, hist, tuple(c.get("outcome") for c in calls), case.get("concurrent", 0), case.get("callback", "record"), bool(case.get("route_back")),
                   (case["close"]["kind"], _phase_any(obs, close_t)) if case.get("close") else None))
 
 
@@ -509,7 +524,8 @@ def run(ctx):
     )
     ctx.require("read_returned_matching_answer", "write_returned_matching_answer", "indication_callback_calls",
                 "repeated_requests", "four_transmissions", "prompt_failures", "calls_pending_at_close", "counter_checks",
-                "concurrent_requests_serialised", "counter_wraparound_seen")
+                "concurrent_requests_serialised", "counter_wraparound_seen", "cases_without_indication_callback",
+                "indications_delivered_without_callback", "indication_callback_raised", "route_back_cases")
     n = 0
     max_len = ctx.scale(3, 4)
     close_len = ctx.scale(1, 2)
@@ -527,6 +543,18 @@ def run(ctx):
         for s in _scripts(alphabet, conc_len):
             for k in (2, 3, 4):
                 cases.append({"transport": transport, "script": s, "concurrent": k})
+    # configuration dimension: no indication callback (the default of the class), a callback that raises, UDP route-back
+    cfg_len = ctx.scale(2, 3)
+    for transport, alphabet in (("udp", UDP_SYMBOLS), ("tcp", TCP_SYMBOLS)):
+        for s in _scripts(alphabet, cfg_len):
+            for cb in ("none", "raises"):
+                cases.append({"transport": transport, "script": s, "callback": cb, "indications": (0.015, 0.035) if "I" not in s else ()})
+        for s in _scripts(alphabet, 1):
+            for cb in ("none", "raises"):
+                cases.append({"transport": transport, "script": s, "callback": cb, "concurrent": 3, "indications": (0.015, 0.035)})
+    for s in _scripts(UDP_SYMBOLS, ctx.scale(1, 2)):
+        for cb in ("record", "none"):
+            cases.append({"transport": "udp", "script": s, "route_back": True, "callback": cb})
     if ctx.shard == 0:
         ctx.extra["base_cases"] = len(cases)
     closes = 0
@@ -537,7 +565,7 @@ def run(ctx):
         obs = run_case(ctx, case)
         if n <= 3:
             ctx.sample({"case": case, "calls": [(c["idx"], c.get("outcome")) for c in obs["calls"]]})
-        if len(case["script"]) <= close_len and not case.get("first_counter") and case.get("concurrent", 0) in (0, 3):
+        if len(case["script"]) <= close_len and not case.get("first_counter") and case.get("concurrent", 0) in (0, 3) and case.get("callback") != "raises":
             kinds = ["user", "server"] + (["reset"] if case["transport"] == "tcp" else [])
             for at in _close_steps(obs):
                 for kind in kinds:
